@@ -92,8 +92,13 @@ def run(tier, seed):
       continue
     pts = [sample_point(meta) for _ in range(5)]
     trials = [vz.Trial(parameters=p) for p in pts]
-    feats = np.asarray(conv.to_features(trials))
-    back = conv.to_parameters(feats)
+    try:
+      feats = np.asarray(conv.to_features(trials))
+      back = conv.to_parameters(feats)
+    except Exception as e:  # pylint: disable=broad-except
+      viol('encoding / decoding points of the search space raised %s' % type(e).__name__,
+           {'space': meta, 'options': {k: str(v) for k, v in opts.items()}, 'points': pts, 'error': str(e)[:200]})
+      continue
     nontriv = opts['scale'] or opts['onehot_embed']
     rep.case({'space': meta, 'options': {k: str(v) for k, v in opts.items()}}, nontriv)
     rep.count('opts_scale_%s_onehot_%s' % (opts['scale'], opts['onehot_embed']))
